@@ -198,8 +198,15 @@ pub struct Device {
     segmented: Option<(Vec<u8>, bool, usize)>,
     /// Scripted raw replies (C16): when non-empty every mailbox request is answered by the next
     pub scripted_replies: std::collections::VecDeque<Vec<u8>>,
+    /// Scripted mode (C16): the CoE server is off. Request k is answered by burst k of replies
+    /// (delivered one after the other as the MainDevice empties the out mailbox)
+    pub scripted: Option<std::collections::VecDeque<Vec<Vec<u8>>>>,
+    /// In scripted mode, once the script is used up: this reply is delivered again and again,
+    /// after every request and every time the out mailbox has been emptied
+    pub endless: Option<Vec<u8>>,
     /// Device is unplugged: it neither sees nor answers any datagram
     pub absent: bool,
+    endless_armed: bool,
     /// Forced AL status bytes: each read of the AL status register is served the next one instead
     /// of the register content (C10: every combination of reported states)
     pub al_force: std::collections::VecDeque<u8>,
@@ -345,6 +352,9 @@ impl Device {
             segmented: None,
             scripted_replies: Default::default(),
             absent: false,
+            endless_armed: false,
+            scripted: None,
+            endless: None,
             al_force: Default::default(),
             n_fmmu,
             n_sm,
@@ -871,6 +881,12 @@ impl Device {
             return;
         }
 
+        if self.mbx.out_queue.is_empty() && self.endless_armed {
+            if let Some(e) = self.endless.clone() {
+                self.mbx.out_queue.push_back(e);
+            }
+        }
+
         if let Some(reply) = self.mbx.out_queue.pop_front() {
             // find the read mailbox SM
             if let Some(sm) = (0..self.n_sm).map(|i| self.sm(i)).find(|s| s.enabled && s.mailbox() && !s.master_writes()) {
@@ -900,6 +916,20 @@ impl Device {
 
         if let Some(reply) = self.scripted_replies.pop_front() {
             self.queue_reply(reply);
+
+            return;
+        }
+
+        if let Some(script) = self.scripted.as_mut() {
+            if let Some(burst) = script.pop_front() {
+                for r in burst {
+                    self.mbx.out_queue.push_back(r);
+                }
+            }
+
+            self.endless_armed = script.is_empty() && self.endless.is_some();
+
+            self.load_next_reply();
 
             return;
         }
